@@ -49,11 +49,11 @@ CHECKS.update({
     "C02": hist("TestC02", GEN + "Biased to immutable/never/pool workloads and delete/recreate/reschedule. Oracle per filter/bind: a pod "
                 "whose key holds a reserved IP is only offered nodes routable for it and is bound with exactly that IP; a deployment/pool "
                 "pod whose app prefix holds reserved IPs gets one of them. Non-trivial = a binding happened while a reservation for that "
-                "identity existed.", floors={"same_name_recreated": 0.3}),
+                "identity existed.", quick=8000, floors={"same_name_recreated": 0.3}),
     "C03": hist("TestC03", GEN + "All three policies x all workload kinds with scale/app deletion/finished pods/dropped events, ending in "
                 "quiesce. Oracle: reference model of doc/float-ip.md - no premature release at every unbind/resync evaluation, no leak at "
                 "every quiescence. Non-trivial = >=1 keep and >=1 release decision evaluated and a scale/app delete in the history.",
-                floors={"keep_decision": 0.1, "release_decision": 0.1}),
+                quick=10000, floors={"keep_decision": 0.1, "release_decision": 0.1}),
     "C04": hist("TestC04", GEN + "Biased to same-name re-creation with late/duplicate unbind sources, resync, API release, reloads that keep "
                 "the IP, pod-IP sync. Oracle after every op and scheduler step: every live bound pod's still-configured IP is allocated to "
                 "its key, and the provider was not asked to unassign it. Non-trivial = a release path ran while a same-named replacement "
@@ -82,13 +82,13 @@ CHECKS["C07"] = hist("TestC07", "rapid draws topologies, 1-3 deployments sharing
     "POST /v1/pool with preAllocateIP, pool size update, unbind - interleaved by the cooperative scheduler at every lister/IPAM/API call. "
     "Oracle after every op and every scheduler step: #IPs keyed under pool__<name>_ <= max(count when the op/episode started, largest "
     "size in force in truth or lister during it, or since the successful filter of a pod of the pool whose bind is still to come - a scheduling attempt is filter + bind, and a pool without Pool object is capped by replicas, not by a size). Non-trivial = an episode in which >= 2 ops overlapped; distinct by SHA-1 of the case.",
-    quick=2500, thorough=120000, floors={"episode_overlapped": 0.2, "pre_allocation": 0.1}, enum=True)
+    quick=5000, thorough=120000, floors={"episode_overlapped": 0.2, "pre_allocation": 0.1}, enum=True)
 CHECKS["C09"] = hist("TestC09", GEN + "Sequences of 2-4 configurations (ranges shrink/grow/move, pools disappear, node subnets change), "
     "administrator reservations (labelled FloatingIP) whose watch event is delivered early/late/never, and episodes running one reload "
     "concurrently with schedule/bind/unbind/API release/pod-IP sync/reservation events. Oracle: no allocation or binding of a reserved or "
     "unconfigured IP at any step; after every reload (and every episode containing one) memory == store for every configured IP, no "
     "table entry or FloatingIP object outside the configuration. Non-trivial = a reload dropped >=1 allocated IP and kept >=1, or a "
-    "reload overlapped another operation.", quick=2500, thorough=120000, floors={"reservation": 0.03, "reload_dropped_and_kept": 0.03},
+    "reload overlapped another operation.", quick=5000, thorough=120000, floors={"reservation": 0.03, "reload_dropped_and_kept": 0.03},
     enum=True, extra_assume=["at most one reload, one resync/pod-IP-sync pass and one informer event handler run at a time (single goroutine sources in galaxy-ipam)"])
 
 IPAM_ASSUME = ["fake API server (client-go object tracker); pre-states are built through the real IPAM (AllocateSpecificIP)",
